@@ -167,9 +167,19 @@ def rule_invalidated_is_needed(A, R, rule):
     for s in A.reach():
         if s not in C["Finished"] and s not in C["Running"] and s not in C["Ready"]:
             runs.append(H[(K["consider"], s)])
+    # edge-flag combinations that can occur once the startup classification has declared the flag (R6.8): not the initial value
+    from rules_compare import edge_state
+    init_fields = adt_variants(edge_state(A, unknown=True).heap["__edge_default__"])[0]
+    fin_idx = [i for i, f in enumerate(A.L.edge_fields) if f["ty"].get("adt") in A.uni.fin]
+    rf_i = rf[0][1] if rf and rf[0][0] == "f" else None
+    pos_in_combo = fin_idx.index(rf_i) if rf_i in fin_idx else None
+    undeclared = set(init_fields[rf_i][2]) if (rf_i is not None and init_fields[rf_i][0] == "fin") else set()
+
+    def declared(c):
+        return pos_in_combo is None or c[pos_in_combo] not in undeclared
     for d in sorted(inv):
         by_summary = bool(tabs) and all(all((not e["unknown"]) and e["early"] == {pos} and not e["cont"]
-                                            for (d2, c), e in tab["table"].items() if d2 == d) for tab in tabs)
+                                            for (d2, c), e in tab["table"].items() if d2 == d and declared(c)) for tab in tabs)
         unflagged = []
         nw = 0
         for run in runs:
